@@ -162,6 +162,8 @@ def run_case(ctx, case):
             sig.write_file(job.fn("結果/値.csv"), "1,2")
             sig.write_file(job.fn("!first #1.log"), "bang")
             sig.write_file(job.fn(".hidden/x"), "h")
+            sig.write_file(job.fn("..notes"), "two dots")
+            sig.write_file(job.fn("..data/x"), "two dots dir")
     want = project_content(src.path)
     base = ctx.scratch("exp")
     tmp = os.path.join(base, "tmp")
